@@ -100,6 +100,16 @@ CLAIMED["C19"] = dict(
          "normalisation; <=3 trials, 2 workers",
     design="§3 C19")
 
+CLAIMED["C06"] = dict(
+    text="One inductive step of journal replay by bounded symbolic execution of the real JournalStorageReplayResult.apply_logs/_apply_* and "
+         "JournalStorage._sync_with_backend/restore_replay_result: from seeded replay states and any two records with symbolic op code, ids "
+         "(live/deleted/unknown), issuer, state, values, distribution (compatible or not), keys, steps: batch replay == record-by-record replay "
+         "(also when a record raises at its issuer mid-batch; cursor = records consumed), every replayer reaches the same public state, a rejected "
+         "record raises only at its issuer with the documented class and changes nobody's state, snapshot(at any position, by any worker)+tail == "
+         "full replay with per-worker fields reset (real pickle). Induction on log length extends (a),(b) to any log/batching.",
+    note="records pass through a JSON model when they carry symbolic numbers; fixed ISO timestamps; Redis backend and legacy formats outside",
+    design="§3 C06")
+
 NOT_APPLICABLE = {
     "C03": "thread/process pre-emption at source-line granularity inside the storage layer cannot be made a symbolic variable over the "
            "real Python code by a solver-based executor; its atomic-step obligations are discharged under C01/C04/C06/C07",
